@@ -19,9 +19,9 @@ def module(systems, lay, files):
             % (", ".join('"%s"' % s["id"] for s in systems), dim, sl, ", ".join('"%s"' % f for f in files)))
 
 
-def cfg(maxops, cutmode, variant="code", invariants=("NeverHalfLoaded", "RoundTrip", "LastReadFaithful"), export=False, view=False):
-    c = ("SPECIFICATION Spec\nCONSTANTS Systems <- SYS\nDim <- DIM\nSecLen <- SL\nFiles <- FL\nMaxOps = %d\nCutMode = \"%s\"\nReaderVariant = \"%s\"\nINVARIANTS %s%s\nCHECK_DEADLOCK FALSE\n"
-         % (maxops, cutmode, variant, " ".join(invariants), " Export" if export else ""))
+def cfg(maxops, cutmode, variant="code", invariants=("NeverHalfLoaded", "RoundTrip", "LastReadFaithful"), export=False, view=False, links=False, convert="code"):
+    c = ("SPECIFICATION Spec\nCONSTANTS Systems <- SYS\nDim <- DIM\nSecLen <- SL\nFiles <- FL\nMaxOps = %d\nCutMode = \"%s\"\nReaderVariant = \"%s\"\nAllowLinks = %s\nConvertVariant = \"%s\"\nINVARIANTS %s%s\nCHECK_DEADLOCK FALSE\n"
+         % (maxops, cutmode, variant, "TRUE" if links else "FALSE", convert, " ".join(invariants), " Export" if export else ""))
     if view:
         c += "VIEW NoHistView\n"
     return c
